@@ -37,10 +37,13 @@ type tok struct {
 }
 
 func (t tok) String() string {
+	if t.Q == 0 {
+		return "<" + t.K + ">"
+	}
 	return fmt.Sprintf("%c:s%d#%d(%s/%s)", clsLetters[t.C], t.S, t.Q, t.K, t.A)
 }
 
-func (t tok) blockingKind() bool { return t.K == "call" || t.K == "inspect" }
+func (t tok) blockingKind() bool { return t.K == "call" || t.K == "plaincall" || t.K == "inspect" }
 
 type tokErr struct{ T tok }
 
@@ -71,7 +74,30 @@ type op struct {
 	Addr int // 0 pid, 1 name (atom), 2 alias, 3 ProcessID
 	H    int // helper index (kill, die)
 	T    tok // token of the message (kill/die: the token of the helper's down message)
+	// Plain: the sender uses plain Send/Call, i.e. asks for its configured SendPriority
+	// (Prio then holds the priority configured at that point of the script)
+	Plain bool
+	Bad   int // failsend/failcall/failimportant: which unreachable target
 }
+
+// noToken: ops that deliver nothing to the receiver. They only exercise the sender's
+// per-process send state (priority / important flag save-and-restore around a failing
+// send, SetSendPriority) between its ordinary sends.
+func (o op) noToken() bool {
+	switch o.Kind {
+	case "failsend", "failcall", "failimportant", "setprio":
+		return true
+	}
+	return false
+}
+
+// badTarget is a destination every send to which fails immediately
+type badTarget struct {
+	Name string
+	To   any
+}
+
+var bads []badTarget
 
 var addrNames = []string{"pid", "name", "alias", "processid"}
 
@@ -95,6 +121,7 @@ type sender struct {
 	Ops  []op
 
 	recs []rec
+	odd  []string     // failing ops that did not fail
 	cur  atomic.Int32 // index of the op in progress; len(Ops) when finished
 	done chan struct{}
 	pid  gen.PID
@@ -252,15 +279,41 @@ func procExec(p gen.Process, t *target, s *sender) {
 		r := rec{T: o.T}
 		var err error
 		r.T0 = hk.Tick()
+		if o.noToken() {
+			// no message for the receiver: must fail (or just change the configured priority)
+			var e error
+			bad := bads[o.Bad%len(bads)]
+			switch o.Kind {
+			case "failsend":
+				e = p.SendWithPriority(bad.To, "c03-unreachable", o.Prio)
+			case "failcall":
+				_, e = p.CallWithPriority(bad.To, "c03-unreachable", o.Prio)
+			case "failimportant":
+				e = p.SendImportant(bad.To, "c03-unreachable")
+			case "setprio":
+				if e = p.SetSendPriority(o.Prio); e != nil {
+					s.odd = append(s.odd, "SetSendPriority: "+e.Error())
+				}
+				continue
+			}
+			if e == nil {
+				s.odd = append(s.odd, fmt.Sprintf("%s to %s did not fail", o.Kind, bad.Name))
+			}
+			continue
+		}
 		switch o.Kind {
 		case "send":
-			if o.Prio == s.Base {
+			if o.Plain {
 				err = p.Send(t.addr(o.Addr), o.T)
 			} else {
 				err = p.SendWithPriority(t.addr(o.Addr), o.T, o.Prio)
 			}
 		case "call":
-			_, err = p.CallWithPriority(t.addr(o.Addr), o.T, o.Prio)
+			if o.Plain {
+				_, err = p.Call(t.addr(o.Addr), o.T)
+			} else {
+				_, err = p.CallWithPriority(t.addr(o.Addr), o.T, o.Prio)
+			}
 		case "exit":
 			err = p.SendExit(t.pid, tokErr{o.T})
 		case "exitmeta":
@@ -412,6 +465,20 @@ func genPlan(rng *rand.Rand, rk, mode string, nonce uint64) *plan {
 			}
 			o.Prio = gen.MessagePriority(rng.Intn(3))
 			o.Addr = rng.Intn(4)
+			if sk == "proc" || sk == "self" {
+				o.Plain = rng.Intn(2) == 0
+				if len(bads) > 0 && rng.Intn(100) < 16 {
+					// operations that deliver nothing but touch the sender's per-process send state
+					ks := []string{"failsend", "failsend", "failsend", "failcall", "failimportant", "setprio"}
+					if sk == "self" {
+						ks = ks[:3]
+					}
+					o = op{Kind: ks[rng.Intn(len(ks))], Prio: gen.MessagePriority(rng.Intn(3)), Bad: rng.Intn(len(bads))}
+					if o.Kind != "setprio" && rng.Intn(4) != 0 {
+						o.Prio = gen.MessagePriority(1 + rng.Intn(2)) // a failing High/Max send is the interesting one
+					}
+				}
+			}
 			if sk == "self" && rng.Intn(2) == 0 {
 				o.Addr = 0 // the self-send path of process.SendPID
 			}
@@ -422,7 +489,7 @@ func genPlan(rng *rand.Rand, rk, mode string, nonce uint64) *plan {
 		}
 		if sk == "proc" && mode == "batch" && !pl.exitMeta && rng.Intn(5) < 3 {
 			// a blocking op may only be the last one while the receiver is parked
-			o := op{Kind: []string{"call", "inspect"}[rng.Intn(2)], Prio: gen.MessagePriority(rng.Intn(3)), Addr: rng.Intn(4)}
+			o := op{Kind: []string{"call", "inspect"}[rng.Intn(2)], Prio: gen.MessagePriority(rng.Intn(3)), Addr: rng.Intn(4), Plain: rng.Intn(2) == 0}
 			if rk == "meta" {
 				o.Addr = 2
 			}
@@ -435,11 +502,31 @@ func genPlan(rng *rand.Rand, rk, mode string, nonce uint64) *plan {
 			k := rng.Intn(len(s.Ops) + 1)
 			s.Ops = append(s.Ops[:k], append([]op{o}, s.Ops[k:]...)...)
 		}
+		base := s.Base // the sender's configured SendPriority as the script proceeds
 		for i := range s.Ops {
 			o := &s.Ops[i]
+			if o.noToken() {
+				o.T = tok{K: fmt.Sprintf("%s/prio=%d", o.Kind, o.Prio)}
+				if o.Kind == "setprio" {
+					base = o.Prio
+				} else {
+					o.T.K += "/" + bads[o.Bad%len(bads)].Name
+				}
+				continue
+			}
+			if o.Kind != "send" && o.Kind != "call" {
+				o.Plain = false
+			}
+			if o.Plain {
+				// the class the sender REQUESTED: plain Send/Call means its configured priority
+				o.Prio = base
+			}
 			c := classOf(rk, *o)
 			q[c]++
 			o.T = tok{N: nonce, S: s.Idx, C: c, Q: q[c], K: o.Kind, A: addrNames[o.Addr]}
+			if o.Plain {
+				o.T.K = "plain" + o.Kind
+			}
 			if o.Kind == "exit" || o.Kind == "inspect" || o.Kind == "log" || o.Kind == "exitmeta" || o.Kind == "event" {
 				o.T.A = "-"
 			}
